@@ -3,6 +3,7 @@ package main
 // Loading of /repo (packages, SSA, contracts) and per-function verification.
 
 import (
+	"io"
 	"fmt"
 	"math/big"
 	"go/token"
@@ -26,6 +27,8 @@ var tokenMap = map[string]token.Token{
 }
 
 type World struct {
+	out        io.Writer // where check results are printed (nil: stdout)
+	replayRoot string    // where replay records go (empty: /verif/replay)
 	replayImports map[string]string // import path -> name, needed by the replay test being generated
 	Root      string
 	ModPath   string
